@@ -379,8 +379,12 @@ func runCore(t *testing.T, cfg coreCfg) {
 }
 
 func hasConcrete(vs []Violation) bool {
+	known := map[string]bool{}
+	for _, k := range strings.Split(os.Getenv("VERIF_KNOWN_SIGS"), ",") {
+		known[k] = true
+	}
 	for _, v := range vs {
-		if v.FoundInput {
+		if v.FoundInput && !known[v.Sig] {
 			return true
 		}
 	}
